@@ -750,6 +750,8 @@ fn main() {
     let mut accepted_terms: Vec<(String, usize, String, String)> = vec![]; // (name, n_stmts, term, sierra text)
     let mut dump_errors: Vec<String> = vec![];
     let mut static_failures: Vec<String> = vec![];
+    let mut negatives_accepted: Vec<String> = vec![];
+    let mut negatives_verdicts: Vec<String> = vec![];
     let mut static_counts: (usize, usize, usize) = (0, 0, 0);
     let mut n_programs = 0;
     let mut n_mutants = 0;
@@ -811,6 +813,14 @@ fn main() {
         let base = path.file_stem().unwrap().to_string_lossy().to_string();
         n_programs += 1;
         for linear in if thorough { vec![true, false] } else { vec![true] } {
+            // every negative template (n_*) is an invalid program by construction: the real pipeline must reject it
+            if base.starts_with("n_") {
+                let o = run_pipeline(&program, linear);
+                negatives_verdicts.push(format!("{base}[linear={linear}]: {:?}: {}", o.stage, o.detail.chars().take(160).collect::<String>()));
+                if o.accepted.is_some() {
+                    negatives_accepted.push(format!("{{\"program\": {:?}, \"linear_solver\": {}, \"sierra\": {:?}}}", base, linear, text));
+                }
+            }
             handle(
                 format!("{base}[linear={linear}]"),
                 &program,
@@ -932,6 +942,8 @@ fn main() {
     fs::write(format!("{}/panics.json", out_dir), format!("[{}]", panics.join(",\n"))).unwrap();
     fs::write(format!("{}/dump_errors.txt", out_dir), dump_errors.join("\n")).unwrap();
     fs::write(format!("{}/static_failures.json", out_dir), format!("[{}]", static_failures.join(",\n"))).unwrap();
+    fs::write(format!("{}/negatives_verdicts.txt", out_dir), negatives_verdicts.join("\n")).unwrap();
+    fs::write(format!("{}/negatives_accepted.json", out_dir), format!("[{}]", negatives_accepted.join(",\n"))).unwrap();
     let samples: Vec<String> = accepted_terms.iter().rev().take(3).map(|(n, k, _, _)| format!("{n} ({k} statements)")).collect();
     fs::write(format!("{}/samples.txt", out_dir), samples.join("\n")).unwrap();
     println!("{}", summary);
